@@ -32,6 +32,7 @@ def run(ck):
     progs, cov, nfaults, nontriv, audited = semcheck.check_all(ck, "C19", 150 if quick else 2500, faults_per_program=0,
                                                                tblgen_sample=(25 if quick else 400))
     doc_layout_probes(ck)
+    range_let_probes(ck)
     ck.count("generated", len(progs) + nfaults, nontriv if not nfaults else set(range(len(nontriv) + nfaults)),
              sample={"files": progs[0].files}, seeded_faults=nfaults,
              coverage=semcheck.cov_summary(cov, ["doc:", "hint:", "classref:", "decl:"]), llvm_tblgen_audit=audited)
@@ -94,6 +95,61 @@ def doc_layout_probes(ck):
     st = ck.cov["streams"].setdefault("doc_layouts", {"evaluations": 0, "distinct_nontrivial": 0})
     st["model_disagreements"] = ndis
     ck.count("doc_layouts", len(cases), {t for t, _, _ in cases}, sample={"text": cases[7][0], "pos": cases[7][1], "want": cases[7][2]})
+
+
+def range_let_probes(ck):
+    """A field overridden for a bit range (`let f{3-0} = v;`) keeps its declared type: hover on every later use of the field and
+    the inlay hint of every later `let` (in the same body, in a derived class, in a def) show the DECLARED type of the field."""
+    rng = ck.rng
+    cases = []
+    for w, rl in [(8, "{3-0}"), (8, "{7}"), (16, "{15...8}"), (16, "{7, 3-0}"), (4, "{1 0}"), (32, "{0x3-0}"), (8, "{}"), (8, "{9-}")]:
+        for form in range(4):
+            ty = "bits<%d>" % w
+            if form == 0:
+                t = "class Base { %s Inst; }\nclass Mid : Base { let Inst%s = 1; %s Copy = Inst; }\ndef X : Mid { let Inst = 7; }\n" % (ty, rl, ty)
+            elif form == 1:
+                t = "class Base { %s Enc; }\nclass A : Base { let Enc%s = 1; }\nclass B : A { let Enc{0} = 0; %s again = Enc; }\ndef y : B { let Enc = 3; }\n" % (ty, rl, ty)
+            elif form == 2:
+                t = "class I<%s opc> { %s Inst; let Inst%s = opc{0}; %s lo = Inst; }\ndef i : I<1> { let Inst%s = 0; let Inst = 2; }\n" % (ty, ty, rl, ty, rl)
+            else:
+                t = "multiclass M { def _a { %s f = 0; let f%s = 1; %s g = f; } }\ndefm m : M;\ndef z { %s f = 1; let f%s = 0; let f = 2; %s h = f; }\n" % (ty, rl, ty, ty, rl, ty)
+            cases.append((t, ty))
+    lines = []
+    meta = []
+    import re as _re
+    for t, ty in cases:
+        names = sorted(set(_re.findall(r"let (\w+)", t)))
+        uses = []
+        for nm in names:
+            for m in _re.finditer(r"= %s;" % nm, t):
+                uses.append((nm, m.start() + 2))
+        qs = [["inlay_hint", "/main.td", 0, len(t.encode())]] + [["hover", "/main.td", p] for _, p in uses]
+        lines.append("ws " + json.dumps({"files": {"/main.td": t}, "root": "/main.td", "queries": qs}))
+        meta.append((t, ty, uses))
+    res = core.impl(lines, tag="rl19")
+    mres = core.model(lines, tag="rlm19")
+    ndis = 0
+    for (t, ty, uses), r, mr in zip(meta, res, mres):
+        if r != mr:
+            ndis += 1
+            if ndis <= 2:
+                ck.broke("correspondence", {"stream": "range-let", "text": t, "impl": r[:300], "model": mr[:300]})
+        try:
+            ans = json.loads(r)
+        except Exception:
+            continue
+        case = {"files": {"/main.td": t}, "root": "/main.td", "detail": {"probe": "range-let"}}
+        hints = [h for h in (ans[0] or []) if h[2] == "FieldLet"]
+        badh = [h for h in hints if h[1] != ":" + ty]
+        if badh:
+            ck.fail(["C19", "hint", "range-let"], "the inlay hint of a `let` shows %s; the declared type of the field is %s" % (badh[0][1], ty), case, json.dumps(hints)[:300], ":" + ty)
+        for (nm, p), h in zip(uses, ans[1:]):
+            sig = (h or {}).get("signature") or ""
+            if not sig.startswith(ty + " "):
+                ck.fail(["C19", "hover-signature", "range-let"], "hover on a use of %r shows %r; the declared type of the field is %s" % (nm, sig, ty), case, json.dumps(h)[:300], ty + " …::" + nm)
+    st = ck.cov["streams"].setdefault("range_let", {"evaluations": 0, "distinct_nontrivial": 0})
+    st["model_disagreements"] = ndis
+    ck.count("range_let", len(cases), {t for t, _ in cases}, sample={"text": cases[0][0]})
 
 
 def replay(ck, path):
